@@ -234,3 +234,30 @@ Example C15_selects_lexed_nonvacuous :
      = [(T_Class, 5, None); (T_Id, 1, None); (T_Semi, 1, None); (T_Def, 3, None); (T_Id, 1, None); (T_Semi, 1, None);
         (T_Eof, 0, None)].
 Proof. vm_compute. repeat split; reflexivity. Qed.
+
+(** non-vacuity of the text-level unterminated / missing-name theorems:
+    "#ifdef A" NL "x" NL "#else" NL "y"  (cut off in the enabled else-branch)   and   "def" " " "#define" ";" *)
+Definition ex_lexed_unterminated : list piece :=
+  [ lx T_Ifdef "#ifdef"; lx T_Whitespace " "; lx T_Id "A"; nl; lx T_Id "x"; nl; lx T_Else "#else"; nl; lx T_Id "y" ]%string.
+Definition ex_lexed_partial : partial :=
+  PElse IfDef (mkhead (rt T_Ifdef "#ifdef") [rt T_Whitespace " "] (rt T_Id "A"))
+        [ ITok (LexPrepText.rtok_of_piece nl); ITok (rt T_Id "x"); ITok (LexPrepText.rtok_of_piece nl) ]
+        (rt T_Else "#else") [ ITok (LexPrepText.rtok_of_piece nl); ITok (rt T_Id "y") ] None.
+Example C15_unterminated_lexed_nonvacuous :
+  forallb valid_piece_d ex_lexed_unterminated = true /\ not_merged ex_lexed_unterminated = true
+  /\ map LexPrepText.rtok_of_piece ex_lexed_unterminated = render_items [] ++ render_partial ex_lexed_partial
+  /\ partial_ok ex_lexed_partial = true
+  /\ filter not_trivia (prep_text (render ex_lexed_unterminated))
+     = [(T_Id, 1, None); (T_Error, 0, Some (ErrPrep PEUnterminated)); (T_Eof, 0, None)].
+Proof. vm_compute. repeat split; reflexivity. Qed.
+
+Definition ex_lexed_missing : list piece :=
+  [ lx T_Def "def"; lx T_Whitespace " "; lx T_Define "#define"; lx T_Semi ";" ]%string.
+Example C15_missing_name_lexed_nonvacuous :
+  forallb valid_piece_d ex_lexed_missing = true /\ not_merged ex_lexed_missing = true
+  /\ map LexPrepText.rtok_of_piece ex_lexed_missing
+     = render_items [ITok (rt T_Def "def"); ITok (rt T_Whitespace " ")] ++ rt T_Define "#define" :: [] ++ [rt T_Semi ";"]
+  /\ missing_name (rt T_Define "#define") [] [rt T_Semi ";"] = true
+  /\ prep_text (render ex_lexed_missing)
+     = [(T_Def, 3, None); (T_Whitespace, 1, None); (T_Error, 8, Some (ErrPrep PEDefineName)); (T_Eof, 0, None)].
+Proof. vm_compute. repeat split; reflexivity. Qed.
